@@ -7,10 +7,13 @@ From Coq Require Import NArith.
 From BV Require Import lib.Ints model.CryptoBase model.CryptoMD model.CryptoSHA256 model.CryptoSHA1
   model.CryptoSHA512 model.CryptoRIPEMD160 model.CryptoHMAC model.CryptoHMACInst
   model.CryptoChaCha model.CryptoPoly1305 model.CryptoAEAD model.CryptoSipHash model.CryptoSHA3
+  model.CryptoSHA256D64 model.CryptoHashWrap model.CryptoPoly1305Limbs model.CryptoAES
   proofs.CryptoBaseLemmas proofs.CryptoMDLemmas proofs.CryptoSHA256Lemmas proofs.CryptoHashesLemmas
   proofs.CryptoHMACLemmas proofs.CryptoHMACInstLemmas
   proofs.CryptoChaChaLemmas proofs.CryptoPoly1305Lemmas proofs.CryptoAEADLemmas
-  proofs.CryptoSipHashLemmas proofs.CryptoSHA3Lemmas.
+  proofs.CryptoSipHashLemmas proofs.CryptoSHA3Lemmas
+  proofs.CryptoSHA256D64Lemmas proofs.CryptoHashWrapLemmas proofs.CryptoFSLemmas proofs.CryptoPoly1305LimbsLemmas
+  proofs.CryptoAESLemmas proofs.CryptoFSChaChaLemmas.
 Local Open Scope Z_scope.
 
 (* ---------- streaming hashers: any fragmentation = one shot ---------- *)
@@ -245,6 +248,116 @@ Theorem C49_keccakf_cpp_is_fips202 : forall st, length st = 25%nat -> keccakf_cp
 Proof. exact keccakf_cpp_eq. Qed.
 Print Assumptions C49_keccakf_cpp_is_fips202.
 
+(* ---------- SHA256D64 (64-byte double-hash batch path) ---------- *)
+(* TransformD64Wrapper (three compressions with the constant paddings) = SHA256(SHA256(block)) *)
+Theorem C49_sha256_d64_wrapper_is_double_sha256 : forall block,
+  length block = 64%nat -> transform_d64_wrapper block = sha256d block.
+Proof. exact transform_d64_wrapper_is_sha256d. Qed.
+Print Assumptions C49_sha256_d64_wrapper_is_double_sha256.
+
+(* the 8/4/2/1-way dispatch loop of SHA256D64, whichever backends are present, for every block count *)
+Theorem C49_sha256d64_dispatch : forall have8 have4 have2 blocks input,
+  (64 * blocks <= length input)%nat ->
+  sha256d64_dispatch have8 have4 have2 blocks input = sha256d64_spec blocks input.
+Proof. exact sha256d64_dispatch_is_spec. Qed.
+Print Assumptions C49_sha256d64_dispatch.
+
+(* ---------- composite hashers of hash.h ---------- *)
+Theorem C49_hash256_stream : forall ubuf ubuf2 chunks,
+  length ubuf = 64%nat -> length ubuf2 = 64%nat -> 8 * Z.of_nat (length (concat chunks)) < 2 ^ 64 ->
+  chash256_stream ubuf ubuf2 chunks = sha256_spec (sha256_spec (concat chunks)).
+Proof. exact chash256_stream_eq_spec. Qed.
+Print Assumptions C49_hash256_stream.
+
+Theorem C49_hash160_stream : forall ubuf ubuf2 chunks,
+  length ubuf = 64%nat -> length ubuf2 = 64%nat -> 8 * Z.of_nat (length (concat chunks)) < 2 ^ 64 ->
+  chash160_stream ubuf ubuf2 chunks = ripemd160_spec (sha256_spec (concat chunks)).
+Proof. exact chash160_stream_eq_spec. Qed.
+Print Assumptions C49_hash160_stream.
+
+(* BIP340 tagged hash: TaggedHash(tag) << chunks, GetSHA256() = SHA256(SHA256(tag) || SHA256(tag) || msg) *)
+Theorem C49_tagged_hash_stream : forall ubuf tag chunks,
+  length ubuf = 64%nat -> 8 * Z.of_nat (length tag) < 2 ^ 64 ->
+  8 * Z.of_nat (64 + length (concat chunks)) < 2 ^ 64 ->
+  tagged_hash_stream ubuf tag chunks = sha256_spec (sha256_spec tag ++ sha256_spec tag ++ concat chunks).
+Proof. exact tagged_hash_stream_eq_spec. Qed.
+Print Assumptions C49_tagged_hash_stream.
+
+(* ---------- FSChaCha20Poly1305 (BIP324 packet cipher): the rekey schedule ---------- *)
+(* packet number i is the RFC 8439 AEAD under key K_(i / interval) with nonce LE32(i mod interval) || LE64(i / interval),
+   K_(j+1) = first 32 bytes of AEAD_(K_j)(nonce FFFFFFFF || LE64(j), aad "", 32 zero bytes)   [bip324_seq_spec] *)
+Theorem C49_fsaead_rekey_schedule_is_bip324 : forall ubuf pbuf key interval packets,
+  length ubuf = 64%nat -> length pbuf = 16%nat -> length key = 32%nat ->
+  (0 < interval)%nat -> Z.of_nat interval < 2 ^ 32 -> Z.of_nat (length packets) < 2 ^ 64 ->
+  Forall packet_ok packets ->
+  fst (fsaead_encrypt_seq pbuf (fsaead_new ubuf key (Z.of_nat interval)) packets) = bip324_seq_spec key interval 0 packets.
+Proof. exact fsaead_is_bip324. Qed.
+Print Assumptions C49_fsaead_rekey_schedule_is_bip324.
+
+(* FSChaCha20 (BIP324 length cipher): within epoch j the chunks take consecutive bytes of the ChaCha20 stream of
+   (K_j, nonce 0 || LE64(j), counter 0); after `interval` chunks the next 32 stream bytes become K_(j+1)   [fsc_spec] *)
+Theorem C49_fschacha20_is_bip324 : forall ubuf key interval chunks,
+  length ubuf = 64%nat -> length key = 32%nat -> (0 < interval)%nat -> Z.of_nat interval < 2 ^ 32 ->
+  Z.of_nat (length chunks) < 2 ^ 64 -> fsc_sizes_ok interval 0 0 chunks ->
+  fst (fschacha20_crypt_seq (fschacha20_new ubuf key (Z.of_nat interval)) chunks) = fsc_spec interval key 0 0 0 chunks.
+Proof. exact fschacha20_is_bip324. Qed.
+Print Assumptions C49_fschacha20_is_bip324.
+
+(* ---------- Poly1305 at the level of the 26-bit limb code of poly1305_donna ---------- *)
+(* init / update / finish transcribed statement by statement with explicit uint32_t / uint64_t reductions:
+   for every 32-byte key and every fragmentation of every byte string the result is RFC 8439's poly1305_mac
+   (no operation wraps; partial reduction, final carry, conditional subtraction of p and the pad addition are right) *)
+Theorem C49_poly1305_limb_code_is_rfc8439 : forall ubuf key chunks,
+  length ubuf = 16%nat -> bytes_ok key -> length key = 32%nat -> Forall bytes_ok chunks ->
+  donna_stream ubuf key chunks = poly1305_spec key (concat chunks).
+Proof. exact donna_stream_eq_spec. Qed.
+Print Assumptions C49_poly1305_limb_code_is_rfc8439.
+
+(* ---------- AES-256 (FIPS 197) and AES-256-CBC (SP 800-38A, PKCS#7 padding) ---------- *)
+Theorem C49_aes256_decrypt_inverts_encrypt : forall key block,
+  length key = 32%nat -> bytes_ok key -> length block = 16%nat -> bytes_ok block ->
+  aes256_decrypt_block_spec key (aes256_encrypt_block_spec key block) = block.
+Proof. exact aes256_inv_cipher. Qed.
+Print Assumptions C49_aes256_decrypt_inverts_encrypt.
+
+Theorem C49_aes256cbc_roundtrip : forall key iv,
+  length key = 32%nat -> bytes_ok key -> length iv = 16%nat -> bytes_ok iv ->
+  forall data, bytes_ok data -> cbc_decrypt key iv (cbc_encrypt key iv data true) true = data.
+Proof. exact cbc_roundtrip. Qed.
+Print Assumptions C49_aes256cbc_roundtrip.
+
+(* AES256CBCEncrypt with padding = SP 800-38A CBC of data || PKCS#7 padding (size 0: the C++ writes nothing) *)
+Theorem C49_aes256cbc_encrypt_is_sp80038a : forall key iv,
+  length key = 32%nat -> bytes_ok key -> length iv = 16%nat -> bytes_ok iv ->
+  forall data, bytes_ok data -> data <> [] ->
+  cbc_encrypt key iv data true = cbc_encrypt_spec key iv (pkcs7_pad data) /\
+  cbc_encrypt_ret key iv data true = ((length data / 16 + 1) * 16)%nat.
+Proof. exact cbc_encrypt_is_sp80038a. Qed.
+Print Assumptions C49_aes256cbc_encrypt_is_sp80038a.
+
+(* AES256CBCDecrypt with padding: decrypt everything, accept exactly a PKCS#7 tail (k bytes of value k, 1 <= k <= 16) *)
+Theorem C49_aes256cbc_decrypt_padding_check : forall key iv,
+  length key = 32%nat -> bytes_ok key -> length iv = 16%nat -> bytes_ok iv ->
+  forall data, bytes_ok data ->
+  cbc_decrypt key iv data true =
+  match pkcs7_unpad (cbc_decrypt key iv data false) with Some d => d | None => [] end.
+Proof. exact cbc_decrypt_padding_check. Qed.
+Print Assumptions C49_aes256cbc_decrypt_padding_check.
+
 Example C49_nonvacuous_sha256 :
   be_value (csha256_stream [[97%N]; []; [98; 99]%N]) = 0xba7816bf8f01cfea414140de5dae2223b00361a396177a9cb410ff61f20015ad.
 Proof. vm_compute. reflexivity. Qed.
+
+(* the premises of the AEAD theorems are satisfiable, and the functions do something: RFC 8439 2.8.2 key / nonce / aad,
+   a split plaintext, round trip through the object models; a flipped last tag bit is rejected *)
+Example C49_nonvacuous_aead :
+  let key := map N.of_nat (seq 128 32) in
+  let aad := [0x50; 0x51; 0x52; 0x53; 0xc0; 0xc1; 0xc2; 0xc3; 0xc4; 0xc5; 0xc6; 0xc7]%N in
+  let c := chacha20_new (zeros 64) key in
+  let out := fst (aead_encrypt (zeros 16) c (firstn 70 sunscreen) (skipn 70 sunscreen) aad 7 0x4746454443424140) in
+  key_loaded c key /\
+  skipn 114 out = [0x1a; 0xe1; 0x0b; 0x59; 0x4f; 0x09; 0xe2; 0x6a; 0x7e; 0x90; 0x2e; 0xcb; 0xd0; 0x60; 0x06; 0x91]%N /\
+  fst (aead_decrypt (zeros 16) c out aad 7 0x4746454443424140 70) = Some (firstn 70 sunscreen, skipn 70 sunscreen) /\
+  fst (aead_decrypt (zeros 16) c (firstn 129 out ++ [0x90]%N) aad 7 0x4746454443424140 70) = None.
+Proof. vm_compute. repeat split; reflexivity. Qed.
+
